@@ -130,6 +130,20 @@ def build(ctx):
                                 extra_flags=["--no-standard-checks"],
                                 desc="message %s.%s: scripted in-order encode (fill_message_header, all setters, fill_group_header + entries, data resize + bytes) == reference image" % (sch.ns, msg.name),
                                 bounds={"N": N, "counts": "<= 2", "data_len": "<= %d" % Dd, "std": "c++" + std, "build": mode}))
+    # "data assignments" are part of an encode: every <data> operation that WRITES content (assign family, assign_string, assign_range, push_back, the insert overloads incl.
+    # single-pass input ranges, resize with a value) must leave exactly the length prefix + payload the vector model gives -- the C13 one-step obligations, on a selection of
+    # length types / byte orders, so that C01 itself reports a wrong payload and not only its sibling check
+    import c13
+    wops = [k for k, nm in enumerate(c13.OPS) if nm.startswith(("push_back", "insert", "assign", "resize_value", "resize_aliasing"))]
+    dsel = ("uint16le_char", "uint8be_uint8") if ctx.quick else ("uint8le_char", "uint16le_char", "uint8be_uint8", "uint32be_int8", "uint64le_char")
+    for inst in [i for i in c13.insts() if i[0] in dsel]:
+        for std in (("17",) if ctx.quick else ("11", "17", "20")):
+            ud = ctx.lower("c13", c13.cpp([inst]), std=std, mode="checked")
+            text = c13.harness(ud, inst, 4, True)
+            for k in wops:
+                hs.append(P.Harness("dataop_%s_op%02d_%s_cxx%s" % (inst[0], k, c13.OPS[k], std), text, [ud], unwind=7, cap=ctx.q(300, 900), defines=["VERIF_WHICH=%d" % k],
+                                    desc="<data> %s (%s length, %s): %s writes exactly the length prefix and payload of the vector model, nothing else" % (inst[1], inst[2], "BE" if inst[5] else "LE", c13.OPS[k]),
+                                    bounds={"CAP": 4, "source_len": "0..3", "std": "c++" + std, "operation": c13.OPS[k]}))
     # extreme data length: the member after a <data> whose length is at the top of its (uint8) length type
     for (xml, std, mode) in c02.plan(ctx)[:2 if ctx.quick else None]:
         sch, inc = hgen.gen_headers(ctx, xml)
